@@ -1864,17 +1864,22 @@ func runC11StarIdx(c *Ctx) {
 		return
 	}
 	guarded := false
-	eachInstr(fn, func(_ *ssa.BasicBlock, _ int, in ssa.Instruction) {
-		bo, ok := in.(*ssa.BinOp)
-		if !ok || (bo.Op != token.EQL && bo.Op != token.NEQ) {
-			return
+	for _, f := range p.withHelpers(fn, 1) {
+		if f != fn && (f.Signature.Recv() == nil || pointeeName(f.Signature.Recv().Type()) != "UntrustedInputChecker") {
+			continue // only helpers of the checker itself
 		}
-		if s, ok := constString(bo.Y); ok && s == "*" {
-			if f, _ := fieldLoad(bo.X); f == "StringNode.Value" {
-				guarded = true
+		eachInstr(f, func(_ *ssa.BasicBlock, _ int, in ssa.Instruction) {
+			bo, ok := in.(*ssa.BinOp)
+			if !ok || (bo.Op != token.EQL && bo.Op != token.NEQ) {
+				return
 			}
-		}
-	})
+			if s, ok := constString(bo.Y); ok && s == "*" {
+				if f, _ := fieldLoad(bo.X); f == "StringNode.Value" {
+					guarded = true
+				}
+			}
+		})
+	}
 	construct := "(*UntrustedInputChecker).OnVisitNodeLeave|string index '*'"
 	if guarded {
 		c.ok(construct, fn.Pos(), "a string index equal to * is not looked up in the tree, whose array elements are stored under that name")
